@@ -302,7 +302,7 @@ func (u *Unit) heap(s *State, kind string, elem types.Type) (string, *Term) {
 	// every path and the entry snapshot agree on the name
 	es := u.W.SortOf(elem)
 	name := "H0_" + sanitize(key)
-	u.W.Declare(name, fmt.Sprintf("(declare-const %s %s)", name, u.heapSort(key, es)))
+	u.declareInitialHeap(name, key, elem)
 	h := Leaf(name, u.heapSort(key, es))
 	s.Heaps[key] = h
 	if s.Entry != nil {
@@ -322,7 +322,7 @@ func (u *Unit) heapIn(heaps map[string]*Term, kind string, elem types.Type) *Ter
 	}
 	es := u.W.SortOf(elem)
 	name := "H0_" + sanitize(key)
-	u.W.Declare(name, fmt.Sprintf("(declare-const %s %s)", name, u.heapSort(key, es)))
+	u.declareInitialHeap(name, key, elem)
 	h := Leaf(name, u.heapSort(key, es))
 	heaps[key] = h
 	return h
@@ -452,4 +452,52 @@ func (u *Unit) Obligations() []*Obligation {
 	}
 	sort.SliceStable(out, func(i, j int) bool { return out[i].Name < out[j].Name })
 	return out
+}
+
+// declareInitialHeap declares the entry heap for a key together with the type invariant of the
+// values it holds: every slice header / pointer / interface stored in memory at entry is
+// well-formed and refers to memory allocated before entry (ref < alloc0).
+func (u *Unit) declareInitialHeap(name, key string, elem types.Type) {
+	if u.W.declared[name] {
+		return
+	}
+	es := u.W.SortOf(elem)
+	u.W.Declare(name, fmt.Sprintf("(declare-const %s %s)", name, u.heapSort(key, es)))
+	if !needsWF(elem) {
+		return
+	}
+	h := Leaf(name, u.heapSort(key, es))
+	st := &State{Alloc: Leaf("alloc0", "Int")}
+	r := Leaf("r!h", "Int")
+	if strings.HasPrefix(key, "S:") {
+		i := Leaf("i!h", "Int")
+		e := Select(Select(h, r), i)
+		ax := Forall([]*Term{r, i}, u.wf(st, elem, e), e)
+		u.W.decls = append(u.W.decls, "(assert "+ax.String()+")")
+	} else if strings.HasPrefix(key, "P:") {
+		e := Select(h, r)
+		ax := Forall([]*Term{r}, u.wf(st, elem, e), e)
+		u.W.decls = append(u.W.decls, "(assert "+ax.String()+")")
+	}
+}
+
+// havocHeap returns a fresh heap for key; the memory type invariant (stored slice headers,
+// pointers and interfaces are well-formed and refer to memory allocated so far) is assumed of it.
+// Call after s.Alloc has been advanced.
+func (u *Unit) havocHeap(s *State, key string, old *Term) *Term {
+	nh := u.fresh(s, "H_"+key, old.Sort)
+	elem := u.heapElemTypes[key]
+	if elem == nil || !needsWF(elem) {
+		return nh
+	}
+	r := Leaf("r!h", "Int")
+	if strings.HasPrefix(key, "S:") {
+		i := Leaf("i!h", "Int")
+		e := Select(Select(nh, r), i)
+		s.assume(Forall([]*Term{r, i}, u.wf(s, elem, e), e))
+	} else if strings.HasPrefix(key, "P:") {
+		e := Select(nh, r)
+		s.assume(Forall([]*Term{r}, u.wf(s, elem, e), e))
+	}
+	return nh
 }
